@@ -227,6 +227,8 @@ def run_c15(ck, fb, fbd):
                 pos.append(repl[0])
         ok = good and len(lists) == n_new and len(set(pos)) == n_new
         (ck.ok if ok else lambda r, w, t: ck.violate(r, w, t, "C15.perm:%s" % name))("C15.perm", f.where, "%s creates %d cells, each replacing exactly one vertex, at pairwise different positions %s" % (name, n_new, pos))
+    tet_occupied_rule(ck, fb, f4[0])
+    get_label_rule(ck, fb)
     # collapse_edge prediction
     ck.rule("C15.predict", "collapse_edge/split_* run with deferred deletion forced on: an index prediction that follows a deletion in the same function must use physical counts (n_vertices()), never logical ones (n_logical_*), and the mode is restored on every path (P)")
     n_pred = 0
@@ -280,6 +282,82 @@ def valence_guards(ck, fb, cls):
 
 
 # ------------------------------------------------------------------------------------------------ C16
+def tet_occupied_rule(ck, fb, f):
+    """add_cell(vertices, check): with the check on, a reused halfface that already bounds a cell rejects the cell"""
+    from .canon import Canon
+    ck.rule("C15.occupied", "TetrahedralMeshTopologyKernel::add_cell(vertices, check) rejects - with the check requested and face incidences available - a tetrahedron one of whose (looked-up or created) halffaces already has an incident cell, and rejects when the four halffaces use an edge other than exactly twice; only then is the base implementation called")
+    cn = Canon(f)
+    P = "P%d" % [k for k, p_ in enumerate(f.d["params"]) if p_["t"] == "bool"][0]
+    occ = conn = False
+    for b, i, x in f.tops():
+        if x.get("k") != "ret" or b not in f.reach():
+            continue
+        r = cn.s(x.get("x"))
+        if not (r in ("InvalidCellHandle", "(CH)CH(-1)", "CH(-1)")):
+            continue
+        fs = {(s_, p_) for s_, p_, c_ in cn.facts(b)}
+        if (P, True) not in fs:
+            continue
+        if any(re.fullmatch(r"\(incident_cell\((.+)\) != InvalidCellHandle\)|incident_cell\((.+)\)\.is_valid\(\)", s_) and p_ is True for s_, p_ in fs) and any(s_.startswith("has_f") and p_ is True for s_, p_ in fs):
+            occ = True
+        if any(re.fullmatch(r"\((v\d+)\.size\(\) != \((v\d+)\.size\(\) \* 2\w*\)\)", s_) and p_ is True for s_, p_ in fs):
+            conn = True
+    delegates = [(b, x) for b, i, x in f.nodes(("call",)) if x.get("pn", "").endswith("TopologyKernel::add_cell") and b in f.reach()]
+    if not occ and not conn and delegates and all(cn.s(x["a"][1]) == P for b, x in delegates if len(x.get("a", [])) > 1):
+        # the flag is simply forwarded: the base class does test the edge count - but it has no occupied-halfface rejection
+        (lambda r, w, t: ck.violate(r, w, t, "C15.occupied:forwarded"))("C15.occupied", f.where, "add_cell(vertices, check) forwards the check to the base implementation, which does not reject an occupied halfface")
+        return
+    (ck.ok if occ else lambda r, w, t: ck.violate(r, w, t, "C15.occupied:occupied"))("C15.occupied", f.where, "add_cell(vertices, check) rejects a tetrahedron with a halfface that already has an incident cell")
+    (ck.ok if conn else lambda r, w, t: ck.violate(r, w, t, "C15.occupied:connected"))("C15.occupied", f.where, "add_cell(vertices, check) rejects unless the halffaces use #halfedges == 2 * #edges")
+
+
+def get_label_rule(ck, fb):
+    """TetTopology::get_label(halfface, first): the label is looked up, not computed"""
+    from .canon import Canon
+    ck.rule("C15.getlabel", "detail::try_get_label<HFL> returns the label HFL+k (k = 1,2,3) exactly when the tet's halfface HFL is the given one and the start vertex of label HFL+k - read from the label table hfl_vl<HFL+k, 0>() - equals the requested first vertex; the opposite side delegates to opposite<HFL>; no label is computed from the vertex by arithmetic")
+    fs = [f for f in fb.fns.values() if f.name == "try_get_label" and f.has_cfg and "/Unstable/Topology/" in f.file]
+    n = 0
+    for f in fs:
+        h = int((f.d.get("targs") or ["-1"])[0]) if (f.d.get("targs") or ["x"])[0].lstrip("-").isdigit() else None
+        if h is None:
+            continue
+        cn = Canon(f)
+        n += 1
+        good = set()
+        bad = []
+        unknown = []
+        for b, i, x in f.tops():
+            if x.get("k") != "ret" or b not in f.reach():
+                continue
+            r = cn.s(x.get("x"))
+            if r in ("optional()", "{}", "nullopt") or r.startswith("try_get_label("):
+                continue
+            m = re.fullmatch(r"optional\((?:\([A-Za-z:]+\))?\((\d+) \+ (\d+)\)\)", r)
+            if not m:
+                unknown.append(r[:60])
+                continue
+            lab = int(m.group(1)) + int(m.group(2))
+            okf = False
+            own = False
+            for c, pol, e in f.facts(b):
+                for y in walk(c):
+                    if isinstance(y, dict) and y.get("k") == "call" and y.get("pn", "").endswith("TetTopology::hfl_vl") and y.get("ta") == [str(lab), "0"] and pol is True and cn.s(c).endswith("== P2)"):
+                        okf = True
+                    if isinstance(y, dict) and y.get("k") == "call" and y.get("pn", "").endswith("TetTopology::hfh") and y.get("ta") == [str(h)] and pol is True and cn.s(c).endswith("== P1)"):
+                        own = True
+            if okf and own and int(m.group(1)) == h:
+                good.add(int(m.group(2)))
+            else:
+                bad.append("%s under other facts" % r)
+        if unknown and not bad:
+            # a label computed in another way (e.g. by arithmetic on the start vertex) may or may not agree with the table
+            ck.cannot_judge("%s: try_get_label<%d> returns %s: not the table look-up form rule C15.getlabel knows - re-audit" % (f.where, h, unknown[:1]))
+            continue
+        ok = good == {1, 2, 3} and not bad
+        (ck.ok if ok else lambda r_, w, t: ck.violate(r_, w, t, "C15.getlabel:%d" % h))("C15.getlabel", f.where, "try_get_label<%d>: labels %s looked up through hfl_vl<label, 0>() == first%s" % (h, sorted(good), "" if not bad else "; other returns: %s" % bad[:2]))
+    ck.floor("try_get_label_instantiations", n, 8)
+
+
 def sheet_rule(ck, fb, rule="C16.tables"):
     """CellSheetCellIter excludes exactly the given direction and its opposite (shared with C05: it is a circulator)"""
     from .canon import Canon
